@@ -501,6 +501,47 @@ theorem ftp_requests_in_scope (o : Oracles) (fs : List Filter) (r : Rec) (u0 : I
   rw [no_waiver_without_redirect] at this
   exact this
 
+/-! ### listing links: the record depth is the true link distance -/
+
+/-- The depth the property implies for a listing link: the files a glob pattern matches are what
+the user named (they stay at the depth of the glob item); a matched directory, and every entry of a
+plain listing, is one link further. -/
+def linkDistance (s : ListingStep) (parentDepth : Nat) : Nat :=
+  if s.parentGlob && !s.isDir then parentDepth else parentDepth + 1
+
+def distanceAlong : Nat → List ListingStep → Nat
+  | d, [] => d
+  | d, s :: rest => distanceAlong (linkDistance s d) rest
+
+theorem listingChildLevel_eq_linkDistance (s : ListingStep) (l : Nat) :
+    listingChildLevel s.parentGlob s.isDir l = linkDistance s l := by
+  unfold listingChildLevel linkDistance
+  cases s.parentGlob <;> cases s.isDir <;> simp
+
+/-- **the record depth is the true link distance**: along every chain of FTP listing links
+(glob or plain parents, directory or file entries) the `level` the code records equals the
+link distance from the start item. -/
+theorem ftp_record_level_is_link_distance (r : Rec) (u : Info) (path : List ListingStep) :
+    (recordAlong r u path).1.level = distanceAlong r.level path := by
+  induction path generalizing r u with
+  | nil => rfl
+  | cons s rest ih =>
+    simp only [recordAlong, distanceAlong]
+    rw [ih]
+    simp [childRecord, listingChildLevel_eq_linkDistance]
+
+/-- **every request of an FTP crawl is in scope at its true depth**: for the item reached along any
+chain of listing links, every request its session makes passes every configured filter under a
+record whose `level` is the true link distance (so neither the recursion switch nor the depth
+limit can be outrun through a glob or a listing). -/
+theorem ftp_crawl_requests_in_scope (o : Oracles) (fs : List Filter) (r : Rec) (u : Info)
+    (path : List ListingStep) (shape : FtpShape) (perm : Option Info) (v : Info) (red : Bool)
+    (h : Ev.request v red ∈ ftpProcess o fs (recordAlong r u path).1 (recordAlong r u path).2 shape perm) :
+    red = false ∧ (recordAlong r u path).1.level = distanceAlong r.level path ∧
+      fs.all (fun f => f.test o v (recordAlong r u path).1) = true :=
+  ⟨(ftp_requests_in_scope o fs _ _ shape perm v red h).1, ftp_record_level_is_link_distance r u path,
+   (ftp_requests_in_scope o fs _ _ shape perm v red h).2⟩
+
 /-! ## non-vacuity: the theorems talk about traces that exist -/
 
 /-- no regex / fnmatch pattern ever matches -/
@@ -550,5 +591,11 @@ example : webProcess o0 ⟨fs0, true, true⟩ r0 uB (.fetched true) [.finish] = 
 example : ftpProcess o0 fs0 r0 fFile (.probe fDir none) none = [.request fDir false, .request fFile false] := by decide
 example : ftpProcess oSlash fs2 r0 fFile (.probe fDir none) none = [.request fFile false] := by decide
 example : ftpProcess oSlash fs2 r0 fFile (.glob fDir) none = [.skip] := by decide
+-- listing links: a glob-matched directory is one level down, a glob-matched file is not
+example : listingChildLevel true true 0 = 1 ∧ listingChildLevel true false 0 = 0 ∧
+    listingChildLevel false true 0 = 1 ∧ listingChildLevel false false 0 = 1 := by decide
+-- without -r the directory a command-line glob matched is not listed (its record is at level 1)
+example : ftpProcess o0 fs0 (recordAlong r0 fFile [⟨true, true, fDir⟩]).1 fDir .known none = [.skip] := by decide
+example : ftpProcess o0 fs0 (recordAlong r0 fDir [⟨true, false, fFile⟩]).1 fFile .known none = [.request fFile false] := by decide
 
 end Wpull.Filter
